@@ -636,7 +636,9 @@ def run(ck):
         ck.violation("C18/hash/rehash-of-empty-table-crashes", "growing an empty ArenaHash through the prime rows (h._rehash(arena, i), i = 0..23, arena block size 4096) "
                      "stopped the process: " + dumper_crash, {"command": "c18_harness tables", "variant": "plain", "broken": "ArenaHashBase::_rehash"}, no_input=True)
     gen_dir = None
-    regen = ck.coq_regen(c18_tables.render(tab))
+    rendered = c18_tables.render(tab)
+    # only the two files of this property are recompiled when the regenerated text differs from the committed snapshot
+    regen = ck.coq_regen(rendered, order=[n for n in ("C18HashTable.v", "C18VecTable.v") if n in rendered])
     table_failures = []
     if regen is not None:
         gen_dir, failed, log = regen
@@ -664,7 +666,7 @@ def run(ck):
     # every model the extraction imports must be compiled against the current sources (some are not imported by Properties_C18.v)
     import glob as _glob
     models = sorted("theories/Containers/" + os.path.basename(f) + "o" for f in _glob.glob(os.path.join(vlib.COQ, "theories", "Containers", "*Model.v")))
-    bad = ck.coq_make(models + ["theories/Containers/TreeGeneral.vo"])
+    bad = ck.coq_make(models + ["theories/Containers/TreeGeneral.vo", "theories/Containers/TreeInsertAbs.vo", "theories/Containers/TreeRemoveAbs.vo"])
     if bad:
         raise RuntimeError("model files do not compile: %s %s" % (bad, getattr(ck, "coq_log", "")[-1500:]))
     model = ck.ocaml_model("Extract_Containers.v", ["zconv.ml", "c18_driver.ml"], name="c18", gen_dir=gen_dir)
